@@ -25,7 +25,23 @@ KINDS = ("tuple", "list", "dict")
 def depth1():
     out = list(BASE)
     out += [t for t in trees.level(BASE, KINDS, 2, empties=False)]
+    # dict nodes of the same shape under OTHER keys (structures that differ in nothing but their keys)
+    out += [["dict", {"c": LEAF}], ["dict", {"c": ["tuple", []]}], ["dict", {"c": LEAF, "a": LEAF}], ["dict", {"b": LEAF, "d": ["list", []]}]]
     return out
+
+
+def twin_indices(d1):
+    """indices of dict structures that have a same-shape twin under other keys"""
+    def shape(t):
+        return [repr(v) for _, v in sorted(t[1].items())]
+
+    idx = [i for i, t in enumerate(d1) if t[0] == "dict" and t[1]]
+    out = []
+    for i in idx:
+        for j in idx:
+            if i < j and shape(d1[i]) == shape(d1[j]) and sorted(d1[i][1]) != sorted(d1[j][1]):
+                out += [i, j]
+    return sorted(set(out))
 
 
 def depth2(d1):
@@ -263,6 +279,76 @@ def _shard(job):
     return stats, viols, samples
 
 
+
+def mutation_part():
+    """The SAME container object is checked, mutated in place, and checked again inside one
+    context: every check must look at the object's current structure.  Complete small product:
+    container kind x mutation x form."""
+    common.bind_repo()
+    from jaxtyping import PyTree, jaxtyped
+    from .. import adapter
+
+    viols, n = [], 0
+    makers = {
+        "list": lambda: [1, 2],
+        "dict": lambda: {"a": 1, "b": 2},
+        "nested": lambda: ([1, 2], 3),
+    }
+    muts = {
+        "list": [("append", lambda x: x.append(3), lambda x: x.pop()), ("nest", lambda x: x.__setitem__(0, (1, 1)), lambda x: x.__setitem__(0, 1))],
+        "dict": [("add-key", lambda x: x.__setitem__("c", 3), lambda x: x.__delitem__("c")), ("nest", lambda x: x.__setitem__("a", [1]), lambda x: x.__setitem__("a", 1))],
+        "nested": [("append-inner", lambda x: x[0].append(9), lambda x: x[0].pop())],
+    }
+    for kind, mk in makers.items():
+        for mname, do, undo in muts[kind]:
+            for form in ("T", "T ...", "... T", "T T ..."):
+                for leaf in (int, None):
+                    n += 1
+                    ann_t = PyTree[int, "T"] if leaf is int else PyTree[typing_any(), "T"]
+                    ann_f = PyTree[int, form] if leaf is int else PyTree[typing_any(), form]
+                    x = mk()
+                    twin = mk()
+
+                    def body():
+                        r = [adapter.check(x, ann_t)]  # binds T to the structure of x
+                        r.append(adapter.check(x, ann_f))
+                        do(x)
+                        do(twin)
+                        r.append(adapter.check(x, ann_f))  # same object, new structure
+                        undo(x)
+                        undo(twin)
+                        r.append(adapter.check(x, ann_f))
+                        return r
+
+                    def body_fresh():
+                        # reference: the same sequence on FRESH objects of the same structures
+                        a = mk()
+                        r = [adapter.check(a, ann_t), adapter.check(mk(), ann_f)]
+                        b = mk()
+                        do(b)
+                        r.append(adapter.check(b, ann_f))
+                        r.append(adapter.check(mk(), ann_f))
+                        return r
+
+                    got = adapter.in_context(body)
+                    want = adapter.in_context(body_fresh)
+                    if got != want:
+                        viols.append(
+                            Violation(
+                                key=f"C09:mutated-in-place:{form}",
+                                what=f"{kind} object checked against 'T' then {form!r}, mutated in place ({mname}), checked again, mutation undone, checked again: verdicts {got}; the same steps on fresh objects of the same structures give {want}",
+                                replay=dict(kind="mutation"),
+                            ).to_json()
+                        )
+    return n, viols
+
+
+def typing_any():
+    import typing
+
+    return typing.Any
+
+
 # ---- structure strings ---------------------------------------------------------
 
 PIECES = ["T", "S", "...", "1x", "T,", "...T", "", "a.b", "é"]
@@ -340,15 +426,24 @@ def run(ctx):
     for si in sub:
         for ti in sub:
             work.append(("pair", si, ti, 16 if ctx.quick else 6))
+    # same-shape dict twins are looked at one after the other IN ONE PROCESS (single and pair forms),
+    # so that anything remembered process-wide about one of them meets the other
+    tw = twin_indices(d1)
+    twin_work = [("single", ti, stride, ti) if ctx.quick else ("single", ti, 16, 0) for ti in tw]
+    tup = next(i for i, t in enumerate(d1) if t == ["tuple", [LEAF, LEAF]])
+    twin_work += [("pair", a, b, 16) for a in tw for b in (tup,)] + [("pair", tup, b, 16) for b in tw]
     ustep = 400
     urange = range(0, d2n, ustep) if ctx.thorough else range(0, min(d2n, 2400), ustep)
     for lo in urange:
         work.append(("unbound", lo, min(d2n, lo + ustep)))
-    jobs = [dict(work=[work[i] for i in idx]) for idx in common.shards(len(work), common.NCPU * 4, ctx.seed)]
+    jobs = [dict(work=twin_work)] + [dict(work=[work[i] for i in idx]) for idx in common.shards(len(work), common.NCPU * 4, ctx.seed)]
     outs = common.pmap(_shard, jobs)
     stats = common.merge_counts(o[0] for o in outs)
     viols = [Violation(**v) for o in outs for v in o[1]]
     samples = [s for o in outs for s in o[2]][:5]
+    mn, mv = mutation_part()
+    viols += [Violation(**v) for v in mv]
+    stats["transitions"] += 4 * mn
     strs = structure_strings()
     n, counts, sv = _strings(strs)
     viols += [Violation(**v) for v in sv]
@@ -381,6 +476,9 @@ def replay(rep):
     from .. import adapter, specs
     from ..refs import pytrees as rpt
 
+    if rep["kind"] == "mutation":
+        n, v = mutation_part()
+        return dict(violations=[x["what"] for x in v][:4], violates=bool(v))
     if rep["kind"] == "string":
         try:
             PyTree[int, rep["s"]]
